@@ -310,6 +310,14 @@ static std::vector<Violation> case_c15(const Plan& p, CaseCtx& cx)
                     " rule functor call(s) were made on functor objects that belong to the OTHER instance of this parser type (" + (o.op.heap ? "called on the run-time built instance" : "called on the constexpr instance") + ")", p));
                 return vs;
             }
+            // 2c. the functors were reached as const objects (parse is a const member function; a non-const call operator
+            //     may write into the functor, that is into the parser object)
+            if (o.rec.mutable_functor_calls > 0)
+            {
+                vs.push_back(make_violation("C15", "functor_reached_through_nonconst_access", who + ": " + std::to_string(o.rec.mutable_functor_calls) +
+                    " rule functor call(s) selected the functor's NON-CONST call operator: the library handed out mutable access to a member of the parser object", p));
+                return vs;
+            }
             // 3. object image
             if (o.out.image_before != o.out.image_after)
             {
